@@ -293,6 +293,21 @@ def run(case, ctx):
         return run_restrike(case)
     a = _build(case["a"], "build", 0)
     b = _build(case["b"], case["route"], case["shuffle_seed"])
+    if case.get("shuffle_seed", 0) % 3 == 1 and case["route"] in ("build", "shuffled"):
+        # a variant made from the other sequence's OWN Message objects (as concatenate, overwrite_absolute_messages or an editor
+        # that re-uses untouched messages produce it): every message of b that a also has is the very same object in both
+        from scoda.sequences.sequence import Sequence
+        pool = list(a.abs._messages)
+        b2, shared = Sequence(), 0
+        for m in list(b.abs._messages):
+            twin = next((x for x in pool if x.equivalent(m)), None)
+            if twin is not None:
+                pool.remove(twin)
+                shared += 1
+            b2.add_absolute_message(twin if twin is not None else m)
+        if shared:
+            b = b2
+            LOG.n("c17.operands_sharing_message_objects")
     fails = []
     pert = case["pert"]
     oa, ob = obs(a), obs(b)
